@@ -390,9 +390,14 @@ def d5_field_diff(chk, repo):
            f"working field is {v.show(W)[:160]}; expected self, or self.pad({{direction: (1, 1)}}, mode='wrap') in a periodic direction",
            v.f, outer)
     gv = gated_values(v, wf[1], outer)
-    okc = bool(gv) and value_iff(v, gv, lambda t: v.eq(t, padded), v.spec("direction in self.mesh.bc"),
-                                   assume=full_term(v, outer))
-    chk.ob("field.Field.diff::periodic-condition", okc, "C04.D5", "padding must be applied exactly when direction in self.mesh.bc", v.f)
+    # mesh.bc is either a string of periodic directions or one of the two names 'neumann' / 'dirichlet' (Mesh.bc setter); a
+    # direction whose name happens to be a letter of those words (n, e, u, m, a, d, i, r, c, h, l, t) is not periodic then
+    PERIODIC = "direction in self.mesh.bc and self.mesh.bc not in ('neumann', 'dirichlet')"
+    okc = bool(gv) and value_iff(v, gv, lambda t: v.eq(t, padded), v.spec(PERIODIC), assume=full_term(v, outer))
+    chk.ob("field.Field.diff::periodic-condition", okc, "C04.D5",
+           "padding must be applied exactly when the direction is one of the periodic directions: `direction in self.mesh.bc` "
+           "and bc is not the name of a boundary condition ('neumann', 'dirichlet' contain the letters n, e, u, m, a, d, i, r, c, "
+           "h, l, t - legitimate dimension names)", v.f)
     env = {"W": W, "d": v.spec("self.mesh.region._dim2index(direction)")}
     it = v.term(outer.iter, at=outer)
     want_it = v.spec("W.mesh.sel(**{direction: (W.mesh.region.pmin[d], W.mesh.region.pmin[d])}).indices", env=env)
@@ -444,7 +449,7 @@ def d5_field_diff(chk, repo):
            "by W.mesh.region2slices(self.mesh.region)", v.f, r)
     okcrop = False
     for st in v.stmts():
-        if isinstance(st, ast.If) and st is not first and v.eq(v.ev.term(st.test, at=st), v.spec("direction in self.mesh.bc")):
+        if isinstance(st, ast.If) and st is not first and cond_equiv(v, v.ev.term(st.test, at=st), v.spec(PERIODIC)):
             for s2 in st.body:
                 if isinstance(s2, ast.Assign) and isinstance(s2.value, ast.Subscript):
                     okcrop = True
